@@ -484,4 +484,7 @@ var baseWeights = map[string]int{"line": 8, "opts": 3, "if": 3, "set": 4, "decla
 // Profiles of the run stream, by name.
 var Profiles = map[string]*Profile{
 	"flow": {Name: "flow", MaxNodes: 4, Weights: baseWeights, ExprDepth: 2, Faults: 1, Ops: 30, Untracked: true, Tags: true},
+	// biased to reach an end: short bodies, many stops, few jumps; the trailing next calls probe the ended state
+	"end": {Name: "end", MaxNodes: 2, Weights: map[string]int{"line": 6, "opts": 4, "if": 3, "set": 3, "declare": 1, "jump": 1, "cmd": 2, "call": 2, "stop": 3},
+		ExprDepth: 1, Faults: 0, Ops: 24, HostWrites: 1},
 }
